@@ -481,7 +481,7 @@ class RegionGeomToO:
                 "numbers in [0, 1]"
             )
 
-        times *= self.sourceOBSTime  # in s
+        times = times * self.sourceOBSTime  # in s
         times = TimeDelta(times, format="sec")
         times = self.too_source.eventtime + times
         return times
